@@ -415,7 +415,7 @@ def run_dynamics(inp):
     dt = inp.get("dt") or rng.choice([0.1, 0.15, 0.2])
     nsteps = inp.get("nsteps") or (2 if bugmode else rng.choice([2, 3, 4]))
     thr = inp.get("thr") or rng.choice([1e-15, 1e-14, 1e-13])
-    cap, pad = 2 ** L, None
+    cap, pad = inp.get("cap") or 2 ** L, None
     if mixed:
         # every bond already has its full Schmidt dimension (zero padding), the cap sits below it at the inner bonds:
         # one-site and two-site branches are mixed, yet nothing is projected away, so the step-size orders still apply
@@ -541,6 +541,10 @@ def gen(rng, tier):
         dyn.append({"kind": "dynamics", "mode": ["tdvp", "tdvp-mixed", "bug"][k % 3], "sub": rng.randrange(1 << 30)})
     head = 4 if tier != "search" else n_dyn
     yield from dyn[:head]
+    # shortest chains with the cap exactly at the full bond dimension (no truncation possible, so the result must converge)
+    for L, cap in ((2, 2), (2, 64), (3, 4)):
+        yield {"kind": "dynamics", "mode": "tdvp", "L": L, "cap": cap, "ham": rng.choice(["ising", "heis"]),
+               "state": rng.choice(["x+", "Neel", "wall"]), "sub": rng.randrange(1 << 30)}
     for _ in range({"quick": 6, "thorough": 60, "search": 20}.get(tier, 6)):
         yield {"kind": "budget", "sub": rng.randrange(1 << 30)}
     for L in (2, 3, 4, 5):  # every small length with caps that bite everywhere / nowhere
